@@ -391,4 +391,145 @@ theorem declLoop_rel (opts : Opts) (ho : opts.optStatic = true) :
             have hk2 := resolveIfs_kinv d1.symbols _ _ _ _ _ f3.kinv hri
             exact ih d1 x2 y2 nodes2 cnt m3 (f3.sub hk2 hsub)
 
+/-! ## `define_remaining` and `match_all`, side by side -/
+
+theorem MRel.padset_fn {opts : Opts} {d : Decls} {on off : Defs} (m : MRel opts d on off) (r : Nat) (sd : SymDef)
+    (hk : kindOf d r ≠ .constant) :
+    MRel opts d { on with symbols := (padTo on.symbols r none).set r (some sd) }
+      { off with symbols := (padTo off.symbols r none).set r (some sd) } := by
+  refine ⟨m.banks, m.ruledefs, m.fns, m.instrs, m.datas, m.res, m.aligns, m.addrs, ?_, fun r' => ?_, fun r' => ?_, fun r' => ?_,
+    fun r' => ?_, fun r' h => ?_, fun r' h1 h2 => ?_, fun r' h => ?_⟩
+  · simp only [padset_length, m.len]
+  · simp only [slot_padset]; split <;> first | rfl | exact m.slot r'
+  · simp only [sym_padset]; split <;> first | rfl | exact m.val r'
+  · simp only [sym_padset]; split <;> first | rfl | exact m.kn r'
+  · simp only [sym_padset]; split <;> first | rfl | exact m.ne r'
+  · simp only [sym_padset] at h ⊢
+    split at h
+    · rename_i he; simp only [he, if_true]; exact h
+    · rename_i hne; simp only [hne, if_false]; exact m.c2 r' h
+  · simp only [sym_padset] at h1 h2
+    split at h1
+    · rename_i he; simp only [he, if_true] at h2; rw [h1] at h2; cases h2
+    · rename_i hne
+      simp only [hne, if_false] at h2
+      have := m.c1 r' h1 h2
+      simp only [sym_padset, hne, if_false]
+      exact this
+  · simp only [sym_padset] at h
+    split at h
+    · rename_i he; subst he; exact fun hh => hk hh.1
+    · exact m.c3 r' h
+
+theorem MRel.symbols_of {opts : Opts} {d : Decls} {on off on' off' : Defs} (m : MRel opts d on off)
+    (h1 : on'.symbols = on.symbols) (h2 : off'.symbols = off.symbols)
+    (hb : off'.banks = on'.banks) (hr : off'.ruledefs = on'.ruledefs) (hf : off'.fns = on'.fns) (hi : off'.instrs = on'.instrs)
+    (hd : off'.datas = on'.datas) (hres : off'.res = on'.res) (hal : off'.aligns = on'.aligns) (had : off'.addrs = on'.addrs) :
+    MRel opts d on' off' := by
+  have e1 : ∀ r, on'.sym r = on.sym r := sym_of_symbols_eq h1
+  have e2 : ∀ r, off'.sym r = off.sym r := sym_of_symbols_eq h2
+  refine ⟨hb, hr, hf, hi, hd, hres, hal, had, by rw [h1, h2]; exact m.len, fun r => by rw [h1, h2]; exact m.slot r,
+    fun r => by rw [e1, e2]; exact m.val r, fun r => by rw [e1, e2]; exact m.kn r, fun r => by rw [e1, e2]; exact m.ne r,
+    fun r h => by rw [e2] at h; rw [e1]; exact m.c2 r h, fun r ha hb' => ?_, fun r h => by rw [e2] at h; exact m.c3 r h⟩
+  rw [e1] at ha ⊢; rw [e2] at hb'
+  exact m.c1 r ha hb'
+
+theorem assignRef_rel {opts : Opts} {d : Decls} (l : List AstNode) : ∀ (on off : Defs) (out : List AstNode), MRel opts d on off →
+    (l.foldl assignRef (off, out)).2 = (l.foldl assignRef (on, out)).2 ∧
+      MRel opts d (l.foldl assignRef (on, out)).1 (l.foldl assignRef (off, out)).1 := by
+  induction l with
+  | nil => intro on off out m; exact ⟨rfl, m⟩
+  | cons n rest ih =>
+    intro on off out m
+    rw [List.foldl_cons, List.foldl_cons]
+    have step : (assignRef (off, out) n).2 = (assignRef (on, out) n).2 ∧ MRel opts d (assignRef (on, out) n).1 (assignRef (off, out) n).1 := by
+      unfold assignRef
+      simp only
+      split <;> simp only [m.instrs, m.datas, m.res, m.aligns, m.addrs, true_and] <;>
+        first
+          | exact m
+          | exact m.symbols_of rfl rfl m.banks m.ruledefs m.fns (by simp [m.instrs]) (by simp [m.datas]) (by simp [m.res]) (by simp [m.aligns]) (by simp [m.addrs])
+    obtain ⟨s1, s2⟩ := step
+    have e1 : assignRef (off, out) n = ((assignRef (off, out) n).1, (assignRef (on, out) n).2) := by rw [← s1]
+    have e2 : assignRef (on, out) n = ((assignRef (on, out) n).1, (assignRef (on, out) n).2) := rfl
+    rw [e1, e2]
+    exact ih _ _ _ s2
+
+def fnStep (acc : List FnDef × List (Option SymDef)) (n : AstNode) : List FnDef × List (Option SymDef) :=
+  match n with
+  | .fn _ ps body (some r) =>
+    let idx := acc.1.length
+    (acc.1 ++ [⟨r, ps, body⟩],
+     (padTo acc.2 r none).set r (some { noEmit := true, known := true, value := .fn idx, resolved := true }))
+  | _ => acc
+
+theorem fnFold_rel (opts : Opts) (d : Decls) (bon boff : Defs) (nodes : List AstNode) (hk : KInv d.symbols nodes) :
+    ∀ (l : List AstNode), (∀ n ∈ l, n ∈ nodes) → ∀ (aon aoff : List FnDef × List (Option SymDef)), aoff.1 = aon.1 →
+      MRel opts d { bon with symbols := aon.2 } { boff with symbols := aoff.2 } →
+      (l.foldl fnStep aoff).1 = (l.foldl fnStep aon).1 ∧
+        MRel opts d { bon with symbols := (l.foldl fnStep aon).2 } { boff with symbols := (l.foldl fnStep aoff).2 } := by
+  intro l
+  induction l with
+  | nil => intro _ aon aoff h1 m; exact ⟨h1, m⟩
+  | cons n rest ih =>
+    intro hsub aon aoff h1 m
+    rw [List.foldl_cons, List.foldl_cons]
+    refine ih (fun x hx => hsub x (List.mem_cons_of_mem _ hx)) _ _ ?_ ?_
+    · unfold fnStep; split <;> (try simp only [h1]) <;> exact h1
+    · unfold fnStep
+      split
+      · rename_i nm ps body r
+        have hkn := hk _ (hsub _ List.mem_cons_self)
+        simp only [KN] at hkn
+        simp only [h1]
+        refine MRel.padset_fn (on := { bon with symbols := aon.2 }) (off := { boff with symbols := aoff.2 }) m r _ ?_
+        unfold kindOf; rw [hkn.2]; simp
+      · exact m
+
+theorem defineRemaining_rel {opts : Opts} {d : Decls} {on off : Defs} (m : MRel opts d on off) (nodes : List AstNode)
+    (hk : KInv d.symbols nodes) :
+    (∀ e, defineRemaining d on nodes = .error e → defineRemaining d off nodes = .error e) ∧
+    (∀ on' nodes', defineRemaining d on nodes = .ok (on', nodes') →
+      ∃ off', defineRemaining d off nodes = .ok (off', nodes') ∧ MRel opts d on' off') := by
+  have hfold : ∀ (b : Defs), (nodes.foldl (fun (acc : List FnDef × List (Option SymDef)) n =>
+      match n with
+      | .fn _ ps body (some r) =>
+        let idx := acc.1.length
+        (acc.1 ++ [⟨r, ps, body⟩],
+         (padTo acc.2 r none).set r (some { noEmit := true, known := true, value := .fn idx, resolved := true }))
+      | _ => acc) ([], b.symbols)) = nodes.foldl fnStep ([], b.symbols) := fun _ => rfl
+  constructor
+  · intro e h
+    unfold defineRemaining at h ⊢
+    simp only [bind, Except.bind, defineBank_rel m] at h ⊢
+    split at h
+    · exact h
+    · split at h
+      · exact h
+      · simp only [pure, Except.pure] at h
+        cases h
+  · intro on' nodes' h
+    unfold defineRemaining at h ⊢
+    simp only [bind, Except.bind, defineBank_rel m] at h ⊢
+    split at h
+    · cases h
+    · rename_i banks h1
+      split at h
+      · cases h
+      · rename_i rds h2
+        simp only [pure, Except.pure, hfold] at h ⊢
+        obtain ⟨f1, f2⟩ := fnFold_rel opts d on off nodes hk nodes (fun _ hn => hn) ([], on.symbols) ([], off.symbols) rfl
+          (m.symbols_of rfl rfl m.banks m.ruledefs m.fns m.instrs m.datas m.res m.aligns m.addrs)
+        have m2 : MRel opts d ({ on with banks := banks, ruledefs := rds, fns := (nodes.foldl fnStep ([], on.symbols)).1, symbols := (nodes.foldl fnStep ([], on.symbols)).2 } : Defs) ({ off with banks := banks, ruledefs := rds, fns := (nodes.foldl fnStep ([], off.symbols)).1, symbols := (nodes.foldl fnStep ([], off.symbols)).2 } : Defs) :=
+          f2.symbols_of rfl rfl rfl rfl (by simp only [f1]) m.instrs m.datas m.res m.aligns m.addrs
+        obtain ⟨a1, a2⟩ := assignRef_rel (opts := opts) (d := d) nodes _ _ [] m2
+        injection h with h
+        injection h with h3 h4
+        subst h3
+        subst h4
+        refine ⟨(nodes.foldl assignRef (({ off with banks := banks, ruledefs := rds, fns := (nodes.foldl fnStep ([], off.symbols)).1, symbols := (nodes.foldl fnStep ([], off.symbols)).2 } : Defs), [])).1, ?_, a2⟩
+        show Except.ok (nodes.foldl assignRef (({ off with banks := banks, ruledefs := rds, fns := (nodes.foldl fnStep ([], off.symbols)).1, symbols := (nodes.foldl fnStep ([], off.symbols)).2 } : Defs), [])) = _
+        congr 1
+        exact Prod.ext rfl a1
+
 end Casm
